@@ -148,9 +148,17 @@ def random_spec(rng, site, L, bc):
             order = rng.permutation(3)
             ops = [(a, dxs[order[0]]), (h, dxs[order[1]]), (b, dxs[order[2]])]
             spec.append(('multi', st, ops, True))
-        elif kind == 'expdecay' and herm_ops and bc == 'open':
-            h = str(rng.choice(herm_ops))
-            spec.append(('expdecay', float(st.real), float(rng.uniform(0.2, 0.8)), h, h, False))
+        elif kind == 'expdecay' and (herm_ops or pairs) and bc == 'open':
+            # real or complex decay rate; Hermitian operator pair without h.c., or (a, a^dagger) with plus_hc
+            lam = float(rng.uniform(0.2, 0.8)) * (np.exp(1.j * float(rng.uniform(0, 2 * np.pi))) if cplx and rng.random() < 0.7 else 1.)
+            if pairs and (not herm_ops or rng.random() < 0.6):
+                a, b = pairs[int(rng.integers(0, len(pairs)))]
+                if s.op_needs_JW(a):
+                    continue     # (fermionic exponentially decaying couplings: not offered by the method)
+                spec.append(('expdecay', st, lam, a, b, True))
+            elif np.isreal(lam):
+                h = str(rng.choice(herm_ops))
+                spec.append(('expdecay', float(st.real), float(np.real(lam)), h, h, False))
     return spec
 
 
